@@ -23,7 +23,7 @@ RULE = (
     "step the object is compared with a bit-vector reference model. Non-trivial = >=2 state-changing operations; distinct "
     "= distinct (layout signature, -, operation-shape signature) pairs counted with a set. No fault is injected (fault set empty)."
 )
-COMPONENTS = {"real": ["spsdk.utils.registers (Registers, Register, RegsBitField, RegsEnum, config processors)", "spsdk.utils.misc value_to_int / value_to_bytes"], "stub": ["none (the device database lookup is bypassed by loading a generated specification through _load_from_spec)"]}
+COMPONENTS = {"real": ["spsdk.utils.registers (Registers, Register, RegsBitField, RegsEnum, config processors)", "spsdk.fuses.fuse_registers (FuseRegisters, FuseRegister) for a quarter of the layouts", "spsdk.utils.misc value_to_int / value_to_bytes"], "stub": ["none (the device database lookup is bypassed by loading a generated specification through _load_from_spec)"]}
 ASSUMPTIONS = [
     "generated specifications follow the real ones: bit-fields partition the register, gaps are unnamed hidden fields, 'reversed' appears on group registers only",
     "alternative widths: only the alt_set operation judges them (group zeroed first, then a value selecting one of the widths: read-back, sub-register placement, length of the bytes / hex views); the byte-reversed whole-group view of such groups is not value-predicted elsewhere",
@@ -52,6 +52,9 @@ def worker_init() -> None:
         pass
 
     R = NS()
+    from spsdk.fuses.fuse_registers import FuseRegisters
+
+    R.FuseRegisters = FuseRegisters
     R.regs = regs
     R.SPSDKError = SPSDKError
     R.Endianness = Endianness
@@ -66,6 +69,9 @@ def build_spec(layout: dict):
     spec_regs = []
     for r in layout["regs"]:
         sr = {"id": r["uid"], "name": r["name"], "offset_int": hex(r["offset"]), "reg_width": r["width"], "description": "d"}
+        if layout.get("fuse"):
+            sr["index_int"] = hex(int(r["uid"][1:]))
+            sr["shadow_reg_offset_int"] = hex(r["offset"])
         if r.get("reset"):
             sr["reset_value_int"] = hex(r["reset"])
         bfs = []
@@ -96,7 +102,10 @@ def build_spec(layout: dict):
 def make_registers(layout: dict):
     spec, groups = build_spec(layout)
     end = R.Endianness.BIG if layout["endianness"] == "big" else R.Endianness.LITTLE
-    obj = R.regs.Registers(family="verif-none", feature="none", base_endianness=end)
+    if layout.get("fuse"):
+        obj = R.FuseRegisters(family="verif-none", base_endianness=end)
+    else:
+        obj = R.regs.Registers(family="verif-none", feature="none", base_endianness=end)
     if len(obj._registers) != 0:
         raise HarnessError("a Registers object for an unknown family is expected to start empty")
     obj._load_from_spec(spec, groups)
@@ -616,7 +625,7 @@ class Run:
     def result(self, changes: int) -> dict:
         plan = self.plan
         lay = plan["layout"]
-        lsig = [lay["endianness"], [[r["width"], [(b["width"], bool(b.get("hidden")), len(b.get("enums", [])), b.get("shift", 0)) for b in r.get("bitfields", [])]] for r in lay["regs"]], [[len(g["sub_regs"]), bool(g.get("reversed")), bool(g.get("reverse_subregs_order"))] for g in lay.get("groups", [])]]
+        lsig = [lay["endianness"], bool(lay.get("fuse")), [[r["width"], [(b["width"], bool(b.get("hidden")), len(b.get("enums", [])), b.get("shift", 0)) for b in r.get("bitfields", [])]] for r in lay["regs"]], [[len(g["sub_regs"]), bool(g.get("reversed")), bool(g.get("reverse_subregs_order"))] for g in lay.get("groups", [])]]
         osig = [[o["op"], o.get("val", [None])[0] if o.get("val") else o.get("q") or o.get("by")] for o in plan["ops"]]
         seen, out = set(), []
         for r in self.records:
@@ -724,7 +733,7 @@ def gen_layout(rng: random.Random) -> dict:
     if offset == 0:
         offset = 4
     # a register at offset 0 that is not first would be treated as an alias target only for offset != 0; keep offsets unique
-    return {"endianness": rng.choice(["big", "little"]), "regs": regs, "groups": groups}
+    return {"endianness": rng.choice(["big", "little"]), "regs": regs, "groups": groups, "fuse": rng.random() < 0.25}
 
 
 def gen_val(rng: random.Random) -> list:
@@ -813,6 +822,10 @@ def reductions(plan: dict):
             c = copy.deepcopy(plan)
             c["layout"]["regs"][ri].pop("reset")
             yield c
+    if lay.get("fuse"):
+        c = copy.deepcopy(plan)
+        c["layout"]["fuse"] = False
+        yield c
     if lay["endianness"] != "big":
         c = copy.deepcopy(plan)
         c["layout"]["endianness"] = "big"
